@@ -274,7 +274,7 @@ func (c *Ctx) crd(args []string, stdin []byte) run.Result {
 }
 
 // crdVia feeds `input` to a command that takes [FILE] or stdin by the route `via`: "" (stdin pipe), "redir" (`< file`),
-// "dash" (`-`), "file" (a regular FILE), "devstdin" (FILE = /dev/stdin on a pipe), "fifo" (FILE = a named pipe)
+// "dash" (`-`), "file" (a regular FILE), "relfile" (a relative FILE in another working directory), "devstdin" (FILE = /dev/stdin on a pipe), "fifo" (FILE = a named pipe)
 func (c *Ctx) crdVia(args []string, input []byte, via string) run.Result {
 	cmd := run.Cmd{Args: append([]string{}, args...), Timeout: 20 * time.Second}
 	switch via {
@@ -286,6 +286,11 @@ func (c *Ctx) crdVia(args []string, input []byte, via string) run.Result {
 		f := c.writeTemp(fmt.Sprintf("via%d", nextID()), string(input))
 		defer os.Remove(f)
 		cmd.Args = append(cmd.Args, f)
+	case "relfile": // a FILE named relative to a working directory that is not where crd lives
+		f := c.writeTemp(fmt.Sprintf("rel%d", nextID()), string(input))
+		defer os.Remove(f)
+		cmd.Dir = filepath.Dir(f)
+		cmd.Args = append(cmd.Args, "./"+filepath.Base(f))
 	case "devstdin":
 		cmd.Stdin, cmd.Args = input, append(cmd.Args, "/dev/stdin")
 	case "fifo":
@@ -299,9 +304,9 @@ func (c *Ctx) crdVia(args []string, input []byte, via string) run.Result {
 	return run.Run(c.Bin, cmd)
 }
 
-var viaRoutes = []string{"redir", "dash", "file", "devstdin", "fifo"}
+var viaRoutes = []string{"redir", "dash", "file", "devstdin", "fifo", "relfile"}
 
-// viaFor picks a route from a hash of the input: 5 in 16 requests leave the plain pipe
+// viaFor picks a route from a hash of the input: 6 in 16 requests leave the plain pipe
 func viaFor(input string) string {
 	h := fnv.New32a()
 	h.Write([]byte(input))
